@@ -45,10 +45,11 @@ def convert(input_image_stream, output_image_stream, width, height, skip):
     palette = [ord(ii) for ii in iotostr(f.read(16))]
     out.write(strtoio("P6\n{} {}\n255\n".format(width, height)))
     for jj in range(height):
-        for ii in range(width // 2):
+        for ii in range((width + 1) // 2):
             c = ord(iotostr(f.read(1)))
             dump(c >> 4)
-            dump(c & 15)
+            if 2 * ii + 1 < width:
+                dump(c & 15)
 
 
 DESCRIPTION = """Convert RS-DOS HRS images to PPM
